@@ -21,7 +21,7 @@
 From Coq Require Import List Arith NArith Bool.
 Import ListNotations.
 Require Import Aiuti.Buffer Aiuti.BufferCore Aiuti.BufferFlag Aiuti.BufferJoin Aiuti.BufferQuiet
-               Aiuti.BufferOnce Aiuti.BufferProgress Aiuti.Case_Buffer.
+               Aiuti.BufferOnce Aiuti.BufferProgress Aiuti.Case_Buffer Aiuti.Case_C03 Aiuti.BufferMon.
 
 (* The function only ever receives arguments that were submitted: every element
    of every set passed to the function in the macro step of event e was handed
@@ -128,6 +128,28 @@ Theorem foreign_at_least_once :
 Proof. exact foreign_at_least_once_lemma. Qed.
 Print Assumptions foreign_at_least_once.
 
+(* The trace monitor used on implementation traces is Case_C03.ok = ok_csets && ok_walk.
+   Its call-set part is COMPLETE: it accepts the model's own trace of every event list ... *)
+Theorem callset_monitor_complete :
+  forall (T : N) (evs : list event), ok_csets (Case T evs (trace T evs)) = true.
+Proof. exact csets_complete. Qed.
+Print Assumptions callset_monitor_complete.
+
+(* ... and SOUND, independently of the model: in any observed trace it accepts, every
+   FnEnd c _ set is preceded by the FnStart of that very call c with that very set
+   (the set was not changed under the call), with no other call start or end between. *)
+Theorem callset_monitor_sound :
+  forall (T : N) (evs : list event) (observed : list (list obs)),
+    ok_csets (Case T evs observed) = true ->
+    forall pre c ok set rest, concat observed = pre ++ FnEnd c ok set :: rest ->
+      exists pre' t mid, pre = pre' ++ FnStart c set t :: mid /\ Forall no_call mid.
+Proof. exact csets_sound. Qed.
+Print Assumptions callset_monitor_sound.
+
+Theorem monitor_implies_callset_part : forall c, Case_C03.ok c = true -> ok_csets c = true.
+Proof. exact ok_implies_csets. Qed.
+Print Assumptions monitor_implies_callset_part.
+
 (* ---- non-vacuity ------------------------------------------------------------------ *)
 
 (* ... and exactly-once is NOT claimed with foreign threads: a foreign clear inside
@@ -177,3 +199,10 @@ Proof.
   vm_compute. split; [intros H; repeat (destruct H as [H|H]; [discriminate|]); exact H|].
   split; [repeat constructor; simpl; intuition discriminate|reflexivity].
 Qed.
+
+(* the call-set sub-monitor rejects a set changed under the call and overlapping calls *)
+Example callset_monitor_rejects :
+  csets None [FnStart 0 [1] 8%N; FnEnd 0 true [1; 2]] = None /\
+  csets None [FnStart 0 [1] 8%N; FnStart 1 [2] 9%N] = None /\
+  csets None [FnStart 0 [1] 8%N; WaitRet 0 8%N 0; FnEnd 0 false [1]; FnStart 1 [1] 16%N] = Some (Some (1, [1])).
+Proof. vm_compute. repeat split; reflexivity. Qed.
